@@ -41,6 +41,8 @@ var commonAssume = []string{
 var properties = map[string]*propSpec{
 	"C01": {Level: "exploration", Scenarios: []scenRef{{Name: "mux", quickS: 20, thoroughS: 600}}, CrashProperty: "C01",
 		Rule: "runs of scenario mux; distinct = distinct canonical-log fingerprint; non-trivial = at least one injected fault or park fired and at least one operation completed"},
+	"C07": {Level: "exploration", Scenarios: []scenRef{{Name: "wr", quickS: 20, thoroughS: 600}}, CrashProperty: "C07",
+		Rule: "runs of scenario wr; distinct = distinct canonical-log fingerprint; non-trivial = at least one write fault, cancel or park fired and at least one operation completed"},
 	"C08": {Level: "exploration", Scenarios: []scenRef{{Name: "ids", quickS: 15, thoroughS: 600, Extra: []string{"-sim.nofaultevery=0"}}}, CrashProperty: "C08",
 		Rule: "runs of scenario ids: tape-chosen interleavings of the allocator's atomic steps; distinct = distinct canonical-log fingerprint; non-trivial = at least one park fired (two callers inside the allocator at once) and at least one operation completed"},
 	"C06": {Level: "exploration", Scenarios: []scenRef{{Name: "mux", quickS: 20, thoroughS: 600}}, CrashProperty: "C06", DeadlockProperty: "C06",
